@@ -5,6 +5,9 @@ mod c12;
 mod c18;
 mod common;
 mod fmt;
+mod gen;
+mod nf;
+mod run;
 mod stmts;
 mod tree;
 
@@ -20,6 +23,8 @@ fn main() {
         "c12" => c12::main(&args[2..]),
         "c18" => c18::main(&args[2..]),
         "fmt" => fmt::main(&args[2..]),
+        "gen" => gen::main(&args[2..]),
+        "run" => run::main(&args[2..]),
         other => {
             eprintln!("svh: unknown subcommand {}", other);
             std::process::exit(2);
